@@ -6,12 +6,11 @@ PROP = dict(
         "ntp_proto::config::StepThreshold::is_within, ntp_proto::time_types::NtpDuration::{from_seconds, abs, add_assign, neg, partial_cmp}",
         "call-site census (syntactic, by reading: `grep -rn 'step_clock(' /repo --include=*.rs`): in ntp-proto the only caller of NtpClock::step_clock is KalmanClockController::steer_offset (algorithm/kalman/mod.rs:279), which is only called from update_clock; other callers in the repository are outside this property: ntpd/src/force_sync/mod.rs:99 (ntp-ctl force-sync, interactive), ntpd/src/daemon/clock.rs:46 (the libc adapter implementing the trait), statime-algo/src/lib.rs:359 (PTP, property C43). `in_startup` is assigned only in new() (true) and update_clock (false).",
     ],
-    bounds="one correction (one call of steer_offset / check_offset_steer) from an arbitrary pre-state: arbitrary in_startup, accumulated_steps >= 0, startup and single-step thresholds forward/backward in {None, Some(d >= 0)} (all i64 duration units), accumulated limit None | Some(any i64), arbitrary step_threshold, arbitrary finite freq_delta, empty source map. c01_step/c01_check: real from_seconds, correction = any whole number of seconds s in i32 or 256*s (covers both saturating arms); c01_step_any: any finite f64 correction with the f64->duration conversion replaced by an arbitrary deterministic function (any i64 result)",
-    outside="how measurement histories produce `change` (Kalman filter, C06 territory); the link update_clock -> steer_offset beyond the call-site census; per-source state updates after a step (source map is empty); ntpd/src/daemon/clock.rs (libc adapter); ntp-ctl force-sync; sub-second corrections with the *real* conversion (two bit-blasted copies of from_seconds(x) for arbitrary x are not proved equal by the SAT solver in 10 min: the conversion itself is decided by C32, the threshold logic for arbitrary converted amounts by c01_step_any)",
+    bounds="one correction (one call of steer_offset / check_offset_steer) from an arbitrary pre-state: arbitrary in_startup, accumulated_steps >= 0, startup and single-step thresholds forward/backward in {None, Some(d >= 0)} (all i64 duration units), accumulated limit None | Some(any i64), arbitrary step_threshold, arbitrary finite freq_delta, empty source map. c01_step/c01_check (quick): real from_seconds, correction = any whole number of seconds s in i32 or 256*s (covers both saturating arms; expected amount known in integer arithmetic); c01_step_any (quick): any finite f64 correction with the f64->duration conversion replaced by an arbitrary deterministic function (any i64 result); c01_step_real/c01_check_real (thorough): any finite f64 correction with the real conversion",
+    outside="how measurement histories produce `change` (Kalman filter, C06 territory); the link update_clock -> steer_offset beyond the call-site census; per-source state updates after a step (source map is empty); ntpd/src/daemon/clock.rs (libc adapter); ntp-ctl force-sync; what the f64 -> duration conversion computes (C32)",
     assumptions=[
         "thresholds and accumulated_steps are non-negative durations (configuration parser guarantees; -v overflows for v = i64::MIN in the dev profile)",
         "|change| > step_threshold for the step harnesses (the slew branch is c01_slew_no_step)",
-        "known finding excluded from c01_step/c01_step_any/c01_check and isolated in c01_step_kf_abs_min: not in startup and from_seconds(change) == i64::MIN (change <= -2^31 s)",
         "c01_slew_no_step: assumptions of C02's slew set-up (non-zero correction, representable slew duration, kernel frequency != -1)",
     ],
     stub_notes=[
@@ -20,11 +19,12 @@ PROP = dict(
         "c01_slew_no_step: std::time::Duration::from_secs_f64 -> c02::duration_from_secs_f64_stub (same domain check; an unrepresentable duration ends the path = the real function panics)",
     ],
     harnesses=[
-        H(NP, "c01", "c01_step", "steer_offset, step branch, real conversion: every step_clock(d) obeys the thresholds in force at the moment of the call, accumulated' = accumulated + |d| <= limit, d is the requested amount, no step before an exit", timeout=300),
-        H(NP, "c01", "c01_step_any", "same oracle for an arbitrary finite correction and an arbitrary converted amount (conversion uninterpreted)", timeout=300),
-        H(NP, "c01", "c01_check", "check_offset_steer returns only for allowed corrections and has then accumulated |d|", timeout=300),
-        H(NP, "c01", "c01_slew_no_step", "slew branch: no step, no exit, nothing accumulated", timeout=300),
+        H(NP, "c01", "c01_step", "steer_offset, step branch, real conversion: every step_clock(d) obeys the thresholds in force at the moment of the call, accumulated' = accumulated + |d| <= limit, d is the requested amount, no step before an exit", timeout=600),
+        H(NP, "c01", "c01_step_any", "same oracle for an arbitrary finite correction and an arbitrary converted amount (conversion uninterpreted)", timeout=600),
+        H(NP, "c01", "c01_check", "check_offset_steer returns only for allowed corrections and has then accumulated |d|", timeout=600),
+        H(NP, "c01", "c01_slew_no_step", "slew branch: no step, no exit, nothing accumulated", timeout=600),
         H(NP, "c01", "c01_init", "after new(): accumulated_steps == 0, in_startup, limit published, clock untouched"),
-        H(NP, "c01", "c01_step_kf_abs_min", "KNOWN FINDING region: correction <= -2^31 s after startup (|i64::MIN| wraps)", timeout=300),
+        H(NP, "c01", "c01_step_real", "steer_offset step branch, any finite correction, real conversion (three copies of the conversion circuit)", tier="thorough", timeout=1800),
+        H(NP, "c01", "c01_check_real", "check_offset_steer, any finite correction, real conversion", tier="thorough", timeout=1800),
     ],
 )
